@@ -769,6 +769,14 @@ func (g *Gen) evalCall(env *Env, x *ECall) Val {
 			return Val{T: a.T, S: fmt.Sprintf("(ite %s %s %s)", c.S, a.S, b.S)}
 		}
 		return Val{T: a.T, S: fmt.Sprintf("(ite %s %s %s)", c.S, b.S, a.S)}
+	case "refof":
+		// the object reference an interface value holds
+		v := g.eval(env, x.Args[0])
+		if v.sort(g) != "Iface" {
+			return v
+		}
+		g.uf("iface.ref", []string{"Iface"}, "Int")
+		return Val{Sort: "Int", S: "(iface.ref " + v.S + ")"}
 	case "zerovalue":
 		t, sort := g.specType(x.Args[0].(*EStr).S)
 		if t == nil {
